@@ -229,6 +229,9 @@ pub async fn op_target_stream(sc: Value) -> Value {
                                 if ended_ok && &got != genuine {
                                     dev.push(json!({"what": format!("{ctx}: stream ended without error after {} bytes that are not the signed content", got.len())}));
                                 }
+                                if !want_ok && ended_ok {
+                                    dev.push(json!({"what": format!("{ctx}: the served body is not the signed content, yet the stream ended without an error after handing out {} bytes", got.len())}));
+                                }
                                 if want_ok && !ended_ok {
                                     dev.push(json!({"what": format!("{ctx}: genuine content rejected")}));
                                 }
